@@ -440,6 +440,19 @@ class SqlImpl(TableImpl):
             }
 
         elif isinstance(nd, verbs.Mutate):
+            if query.order_by:
+                # Window functions without an explicit `arrange=` use the order of the table
+                # (like on polars, see the documentation on window functions).
+                for val in nd.values:
+                    for fn in val.iter_subtree_postorder():
+                        if isinstance(fn, ColFn) and fn.op.ftype == Ftype.WINDOW and not fn.context_kwargs.get("arrange"):
+                            fn.context_kwargs["arrange"] = list(query.order_by)
+                            # keep the reference counters balanced (they are decreased below)
+                            for ord in query.order_by:
+                                for node in ord.order_by.iter_subtree_postorder():
+                                    if isinstance(node, Col):
+                                        needed_cols[node._uuid] = needed_cols.get(node._uuid, 0) + 1
+
             sqa_expr |= {
                 uid: sqa.label(name, cls.compile_col_expr(val, sqa_expr))
                 for name, uid, val in zip(nd.names, nd.uuids, nd.values, strict=True)
